@@ -56,6 +56,12 @@ def check(ctx):
     # a pair's channel c is the record analysed alone: layout routing of the two-channel input (2xN, Nx2, 2x2, list)
     from ..inputs import check_record
     check_record(ctx, rule_s=None, rule_r="R6-channel-routing", rule_c="R6-channels-treated-alike")
+    # every two-channel configuration reaches the two-channel kernel of its family with (x1, x2) in the channel positions, on every path of the
+    # dispatchers (a shortcut that analyses a pair as one channel under a data-dependent test breaks 'alone = in a pair' and the swap law)
+    from ..dispatch import check_dispatch
+    check_dispatch(ctx, rule_prefix="R8.", want_roles=True, kaisers=(True,), roles=("x1", "x2"))
+    from ..dispatch import check_result_fields_aligned
+    check_result_fields_aligned(ctx, rule="R9-result-fields-aligned")
     from ..effects import check_scratch_reuse
     check_scratch_reuse(ctx, rule="R7-channel-buffers-not-clobbered")
     table_purity(ctx, cells=CROSS, T=T)
